@@ -21,6 +21,7 @@ ROOT = Path(__file__).resolve().parent.parent
 _OUT = Path(os.environ["VERIF_OUT"]) if os.environ.get("VERIF_OUT") else ROOT
 EVIDENCE_DIR = _OUT / "evidence"
 REPLAY_DIR = _OUT / "replays"
+QUICK_BUDGET_FLOOR_S = 420
 KNOWN_FINDINGS = ROOT / "known_findings.json"
 
 
@@ -181,6 +182,10 @@ def main(module_name: str) -> int:
         items = [i for i in items if args.only in json.dumps(i, sort_keys=True)]
         print(f"--only: {len(items)} work items kept (a partial run: not evidence for the property)")
     budget = args.max_seconds or getattr(module, "BUDGET_S", {}).get(args.tier)
+    if not args.max_seconds and budget and args.tier == "quick":
+        # the modules' quick budgets were measured on an idle 16-core box; on a loaded or smaller box the same enumeration
+        # needs more wall clock - grant it rather than report a truncated (non-exhaustive) run
+        budget = max(budget, QUICK_BUDGET_FLOOR_S)
     total = Result()
     done = 0
     capped = False
